@@ -1,5 +1,7 @@
 (* C05 cache model: the serialisation caches of a Transaction object (lbry/wallet/transaction.py:
-   _raw, _raw_outputs, ref._hash/_id) as a small state machine.  Fields may be changed in place
+   _raw, _raw_outputs, _raw_sans_segwit, ref._hash/_id) as a small state machine.  A parsed object
+   starts with _raw = the given bytes and is_segwit_flag as read; when the flag is set the id is
+   hashed from raw_sans_segwit, which has a cache of its own that _reset() must clear too.  Fields may be changed in place
    (Output.sign, set_channel_private_key, script.generate(), txi.script.generate() inside
    Transaction.sign ...) without any invalidation; add_inputs/add_outputs change the fields and
    reset; _reset() clears every cache; reading raw / id fills them.  Executable definitions only;
@@ -17,17 +19,24 @@ Section Cache.
     c_cur : tx;                 (* the fields the object holds now *)
     c_raw : option bytes;       (* Transaction._raw *)
     c_outs : option bytes;      (* Transaction._raw_outputs *)
-    c_id : option bytes }.      (* TXRefMutable._hash / _id (as the id bytes) *)
+    c_id : option bytes;        (* TXRefMutable._hash / _id (as the id bytes) *)
+    c_seg : bool;               (* Transaction.is_segwit_flag is truthy (set by _deserialize only) *)
+    c_sans : option bytes }.    (* Transaction._raw_sans_segwit *)
 
   Inductive cop :=
   | OEdit (t : tx)              (* fields changed in place: nothing is invalidated *)
   | OAdd (t : tx)               (* add_inputs / add_outputs: fields change, then _reset() *)
   | OReset                      (* Transaction._reset() *)
   | OReadRaw                    (* tx.raw (tx.size, base_size go through it) *)
-  | OReadId.                    (* tx.id / tx.hash *)
+  | OReadId                     (* tx.id / tx.hash *)
+  | OReadSans.                  (* tx.raw_sans_segwit *)
 
-  Definition c_init (t : tx) : cstate := mk_cstate t None None None.
-  Definition c_reset (s : cstate) : cstate := mk_cstate (c_cur s) None None None.
+  Definition c_init (t : tx) : cstate := mk_cstate t None None None false None.
+  (* Transaction(raw): _raw is the given bytes (witnesses, trailing bytes and all) *)
+  Definition c_parsed (t : tx) (raw : bytes) (seg : bool) : cstate :=
+    mk_cstate t (Some raw) None None seg None.
+  Definition c_reset (s : cstate) : cstate := mk_cstate (c_cur s) None None None (c_seg s) None.
+  Definition c_add (s : cstate) (t : tx) : cstate := mk_cstate t None None None (c_seg s) None.
 
   (* _serialize_outputs: the cached blob if there is one *)
   Definition outs_blob (s : cstate) : bytes :=
@@ -41,24 +50,36 @@ Section Cache.
     match c_raw s with
     | Some r => (r, s)
     | None => let r := fresh_raw s in
-              (r, mk_cstate (c_cur s) (Some r) (Some (outs_blob s)) (c_id s))
+              (r, mk_cstate (c_cur s) (Some r) (Some (outs_blob s)) (c_id s) (c_seg s) (c_sans s))
     end.
+
+  (* raw_sans_segwit: _serialize(sans_segwit=True) cached in _raw_sans_segwit when the flag is set
+     (it fills _raw_outputs as every _serialize does), plain raw otherwise *)
+  Definition read_sans (s : cstate) : bytes * cstate :=
+    if c_seg s then
+      match c_sans s with
+      | Some r => (r, s)
+      | None => let r := fresh_raw s in
+                (r, mk_cstate (c_cur s) (c_raw s) (Some (outs_blob s)) (c_id s) (c_seg s) (Some r))
+      end
+    else read_raw s.
 
   Definition read_id (s : cstate) : bytes * cstate :=
     match c_id s with
     | Some i => (i, s)
-    | None => let (r, s') := read_raw s in
+    | None => let (r, s') := read_sans s in
               let i := rev (sha256 (sha256 r)) in
-              (i, mk_cstate (c_cur s') (c_raw s') (c_outs s') (Some i))
+              (i, mk_cstate (c_cur s') (c_raw s') (c_outs s') (Some i) (c_seg s') (c_sans s'))
     end.
 
   Definition cstep (s : cstate) (op : cop) : cstate * list bytes :=
     match op with
-    | OEdit t => (mk_cstate t (c_raw s) (c_outs s) (c_id s), [])
-    | OAdd t => (c_init t, [])
+    | OEdit t => (mk_cstate t (c_raw s) (c_outs s) (c_id s) (c_seg s) (c_sans s), [])
+    | OAdd t => (c_add s t, [])
     | OReset => (c_reset s, [])
     | OReadRaw => let (r, s') := read_raw s in (s', [r])
     | OReadId => let (i, s') := read_id s in (s', [i])
+    | OReadSans => let (r, s') := read_sans s in (s', [r])
     end.
 
   (* run a history; returns the final state and everything the reads returned, in order *)
@@ -75,9 +96,13 @@ Section Cache.
   Definition coherent (s : cstate) : Prop :=
     (c_raw s = None \/ c_raw s = Some (serialize (c_cur s))) /\
     (c_outs s = None \/ c_outs s = Some (ser_outs (tx_outs (c_cur s)))) /\
-    (c_id s = None \/ c_id s = Some (rev (sha256 (sha256 (serialize (c_cur s)))))).
+    (c_id s = None \/ c_id s = Some (rev (sha256 (sha256 (serialize (c_cur s)))))) /\
+    (c_sans s = None \/ c_sans s = Some (serialize (c_cur s))).
 End Cache.
 
 (* second sample transaction: [Model.C05.sample_tx] with another locktime (for the refutation) *)
 Definition cache_run (sha256 : bytes -> bytes) (t : tx) (ops : list cop) : list bytes :=
   snd (crun sha256 (c_init t) ops).
+(* history of a parsed object: starts with _raw = the bytes it was parsed from *)
+Definition cache_run_parsed (sha256 : bytes -> bytes) (t : tx) (raw : bytes) (seg : bool) (ops : list cop) : list bytes :=
+  snd (crun sha256 (c_parsed t raw seg) ops).
